@@ -1236,7 +1236,9 @@ fn c06_collapse_shape(r: &mut Rng) -> TreeDesc {
 pub fn run_c06(cfg: &Cfg, out: &mut Out) -> String {
     let mut idx = 0u64;
     let d200 = Size { width: AvailableSpace::Definite(200.0), height: AvailableSpace::Definite(200.0) };
-    // fixed: §9 item 10 — abs child with grid-row: 5 in an auto-rows-30 grid (known finding expected)
+    // fixed: §9 item 10 — abs child with grid-row: 5 in an auto-rows-30 grid: the witness of the finding
+    // c06-abs-grid-implicit-tracks (container 150 high). Since the repair (absolutely positioned children are not part of
+    // the grid size estimate; a line of theirs outside the implicit grid is auto) the container stays 30 high.
     if cfg.wants(idx) {
         out.begin_case(idx, "fixed:abs-grid-child-with-grid-row-5");
         let mut g = Style::DEFAULT;
@@ -1252,6 +1254,62 @@ pub fn run_c06(cfg: &Cfg, out: &mut Out) -> String {
             style: g,
             ctx: None,
             children: vec![TreeDesc { style: vis, ctx: None, children: vec![] }, TreeDesc { style: ab, ctx: Some(Ctx::Fixed(20.0, 20.0)), children: vec![] }],
+        };
+        c06_tree(out, &a, d200);
+        // the witness' own numbers: container 100 x 30, the in-flow child at (0, 0)
+        match lay(&a, d200) {
+            Ok(la) => {
+                let ok = la[0].size.width == 100.0 && la[0].size.height == 30.0 && la[1].location.x == 0.0 && la[1].location.y == 0.0;
+                if !ok {
+                    out.impl_violation(format!(
+                        "sig:c06-abs-grid-implicit-tracks fixed witness: container {}x{} (expected 100x30), in-flow child at ({}, {}); tree A = {}",
+                        la[0].size.width,
+                        la[0].size.height,
+                        la[1].location.x,
+                        la[1].location.y,
+                        a.line()
+                    ));
+                }
+                out.qa("note c06-witness-container-height", if ok { "ok" } else { "bad c06-abs-visible 0" });
+            }
+            Err(_) => {
+                out.impl_violation(format!("sig:c06-abs-visible fixed witness panics; tree A = {}", a.line()));
+                out.qa("note c06-witness-container-height", "bad c06-abs-visible 0");
+            }
+        }
+    }
+    idx += 1;
+    // fixed: abs child with lines far outside the grid in both axes (negative line, line beyond the explicit grid, span) in a
+    // grid with explicit columns, gaps and two in-flow children; a second abs child whose lines exist
+    if cfg.wants(idx) {
+        out.begin_case(idx, "fixed:abs-grid-child-with-lines-outside-the-grid");
+        let mut g = Style::DEFAULT;
+        g.display = Display::Grid;
+        g.size.width = Dimension::length(120.0);
+        g.gap = Size { width: LengthPercentage::length(4.0), height: LengthPercentage::length(4.0) };
+        g.grid_template_columns = vec![length(40.0), auto()];
+        g.grid_auto_rows = vec![length(30.0)];
+        let mut vis = Style::DEFAULT;
+        vis.size = Size { width: Dimension::length(10.0), height: Dimension::length(10.0) };
+        let mut ab = Style::DEFAULT;
+        ab.position = Position::Absolute;
+        ab.size.width = Dimension::length(50.0);
+        ab.grid_row = Line { start: GridPlacement::from_line_index(5), end: GridPlacement::from_span(3) };
+        ab.grid_column = Line { start: GridPlacement::from_line_index(-7), end: GridPlacement::from_line_index(9) };
+        let mut ab2 = Style::DEFAULT;
+        ab2.position = Position::Absolute;
+        ab2.grid_row = Line { start: GridPlacement::from_line_index(1), end: GridPlacement::from_line_index(2) };
+        ab2.grid_column = Line { start: GridPlacement::from_line_index(2), end: GridPlacement::from_line_index(-1) };
+        let leaf = |s: Style, c| TreeDesc { style: s, ctx: c, children: vec![] };
+        let a = TreeDesc {
+            style: g,
+            ctx: None,
+            children: vec![
+                leaf(vis.clone(), None),
+                TreeDesc { style: ab, ctx: None, children: vec![leaf(Style::DEFAULT, Some(Ctx::Fixed(5.0, 5.0)))] },
+                leaf(vis, Some(Ctx::Wrap(40.0, 8.0))),
+                leaf(ab2, Some(Ctx::Fixed(20.0, 20.0))),
+            ],
         };
         c06_tree(out, &a, d200);
     }
